@@ -54,7 +54,19 @@
 //! append    <knobs> k=<K> x=<letters|-> <batches>     WriteMode::Append
 //! overwrite <knobs> k=<K> x=<letters|-> <batches>     WriteMode::Overwrite
 //! ```
-//! Output of every write op: `ok v=<version> n=<count_rows> frags=<frags> rows=<rows>` or `err <error>`.
+//! C11 accepts `b=` only as `d` or `0`.  Output of every write op:
+//! `ok v=<manifest version> sv=<legacy|2.0|2.1|2.2> n=<count_rows> frags=<frags> rows=<ordered scan>` or `err <error>`
+//! (`err parse` for a line outside the grammar, on both sides).
+//!
+//! # What the kit offers
+//!
+//! `Kit::{new, reset_session, block_on, fresh_uri, tempdir_uri, write, create, append, overwrite, open, scan, count_rows}`,
+//! `Kit::{fragments, storage_version, spec_of}` (no runtime needed), `SchemaSpec::{parse, show, arrow_schema, batch, decode,
+//! check_rows, fixed_width, stored}`, `Knobs::{parse, show, write_params}`, `Mode`, `Ver`, `ScanOpts`, `canon_err`, and the
+//! `show_* / parse_*` functions of the canonical forms.  `SchemaSpec::stored(ver, rows)` is the one known lossy step
+//! (legacy reads NULLs of Int64 / Float32 columns back as 0 — known finding C11 `legacy_nulls_lost`); models that
+//! run histories on legacy tables must apply it too (`LanceModel.C11.storeRow`).  Under legacy, NULL lists come back
+//! as empty lists and NULL struct children as (0, NULL): `decode` reports those as errors, generators should avoid them.
 //!
 //! # Runtime
 //!
